@@ -30,6 +30,12 @@ def do_OP_CODESEPARATOR(vm: Any) -> None:
     vm.begin_code_hash = vm.pc
 
 
+def do_OP_IFDUP(vm: Any) -> None:
+    # script truth, not Python truth: 00, 0000, 80 ... are false (overrides stackops.do_OP_IFDUP)
+    if vm.bool_from_script_bytes(vm[-1]):
+        vm.append(vm[-1])
+
+
 def do_OP_TOALTSTACK(vm: Any) -> None:
     vm.altstack.append(vm.pop())
 
